@@ -254,6 +254,28 @@ CLAIMED["C07"] = dict(
          "logarithms is numerical and not decided.",
     ref="3 C07, Appendix C")
 
+CLAIMED["C11"] = dict(
+    category="other",
+    technique="pole-guard analysis: every function of the THDM one-/two-loop code, the loop-function library "
+              "and the MSSM a_mu code is folded into a term; each denominator factor that can vanish for "
+              "positive arguments must be excluded on its path (substitute the zero of the factor into the "
+              "path conditions), plus an IEEE finite/inf/NaN abstract value for poles that are kept on purpose",
+    text="Decides the structural part of the property: no division by a quantity that vanishes at a mass "
+         "coincidence is reachable without a guard that excludes a neighbourhood of that coincidence. For "
+         "every denominator factor with monomials of both signs (u - 1, u - 4 cw^2, w - cw^2, x - y, 1 - 4x, "
+         "a Kaellen function, ...) in 72 folded sites, the path to the division contains a shift, an "
+         "is_equal_rel/|1 - a/b| < eps branch or a product of closeness tests whose exclusion is shown by "
+         "substituting the solution of factor = 0; guard tolerances lie in [1e-10, 1e-4] (shifts) / >= 1e-10 "
+         "(branches), exact comparisons do not count; argument relations used by guards (xu/yu = xd/yd) hold "
+         "as identities at the call sites; caller contracts of the internal helpers (sorted arguments, "
+         "lambda^2 > 0) are verified on the call graph; tan(2 alpha), which keeps its pole at MA = MZ, is used "
+         "only through its reciprocal (abstract IEEE value of the result: finite).",
+    note=TRUST + "NOT decided: the 1% continuity band as a number, the accuracy of the alternative formulas in the "
+         "equal-argument branches (series coefficients: C01/C02), cancellations that lose precision without a "
+         "vanishing denominator, functions the evaluator cannot fold (loops over Eigen arrays in the MSSM "
+         "one-loop code). Three genuine defects found by this rule were repaired (known_findings.json).",
+    ref="3 C11")
+
 NOT_APPLICABLE = {
     "C03": "numerical agreement of one-loop results with an independent higher-precision evaluation over all "
            "parameter points: depends on eigen-decomposition values; no code-shape clause of its own "
